@@ -75,7 +75,7 @@ struct Harness {
 	void removeFilter(int id) {
 		bool expect = filters[id].alive;
 		bool got = d->removeFilter(fh[id]);
-		ctx.log(fmt("removeFilter(F%d) -> %d", id, (int)got));
+		ctx.log(fmt("removeFilter(F%d) -> %d", id, (int)got)); ctx.tagStep(got ? "+r1" : "+r0");
 		if(expect) { filters[id].alive = false; forder.erase(std::find(forder.begin(), forder.end(), id)); }
 		if(got != expect) ctx.fail("removefilter-result", fmt("removeFilter(F%d) returned %d, expected %d", id, (int)got, (int)expect));
 	}
@@ -88,6 +88,7 @@ struct Harness {
 	void removeListener(int id) {
 		bool expect = lalive[id];
 		bool got = d->removeListener(lkey[id] + 1, lh[id]);
+		ctx.tagStep(got ? "+r1" : "+r0");
 		ctx.log(fmt("removeListener(L%d) -> %d", id, (int)got));
 		if(expect) { lalive[id] = 0; auto & o = lorder[lkey[id]]; o.erase(std::find(o.begin(), o.end(), id)); }
 		if(got != expect) ctx.fail("removelistener-result", fmt("removeListener(L%d) returned %d", id, (int)got));
